@@ -17,6 +17,7 @@ MODULES = ['nl.bsn', 'nl.onderwijsnummer', 'pl.nip', 'pl.regon', 'pt.nif', 'dk.c
            'ad.nrt', 'bg.pnf', 'do.ncf', 'es.cae', 'fi.ytunnus', 'fr.nif', 'gb.upn', 'ie.vat', 'pe.cui', 'pt.cc', 'ru.ogrn',
            'se.postnummer', 'se.vat', 'si.maticna', 'sm.coe', 'sv.nit', 'th.moa', 'at.tin',
            'bg.egn', 'cu.ni', 'cz.rc', 'sk.rc', 'lt.asmens', 'ro.cnp', 'kr.rrn', 'gr.amka', 'is_.kennitala', 'dk.cpr', 'za.idnr',
+           'es.cups', 'es.nif', 'es.referenciacatastral', 'fr.nir', 'in_.gstin', 'si.emso', 'tn.mf', 'tw.ubn', 'ua.rntrc', 'us.ptin',
            'no.fodselsnummer', 'fi.hetu', 'ch.ssn', 'lv.pvn', 'pl.pesel', 'ee.ik']
 
 
